@@ -38,6 +38,7 @@ SLICES = [
 
 
 def register(reg):
+    register_nddata(reg)
     reg.record('ApertureMask', {'data': ('arr', 2, 'real', 'nonempty'), 'bbox': 'BoundingBox',
                                 '_mask': ('arr', 2, 'bool')})
     register_mask_images(reg)
@@ -241,3 +242,45 @@ def register_multiply(reg):
         mutants=[('weighted_cutout[self._mask] = fill_value', 'weighted_cutout[~self._mask] = fill_value'),
                  ('weighted_cutout = cutout * self.data', 'weighted_cutout = cutout + self.data')],
     ))
+
+
+def register_nddata(reg):
+    """C02 "NDData or bare-array call forms": the NDData form of aperture_photometry is the
+    bare-array form on the container's own data, mask and uncertainty array with the *same*
+    apertures, method and subpixels (apphot_ names what the bare-array form returns, by the
+    identity of the arrays; unit-less container, StdDevUncertainty)."""
+    AP = 'photutils/aperture/photometry.py::aperture_photometry'
+    reg.record('ApertureToken', {'idx': 'int'})
+    args = 'id_(data), apertures.idx, id_(error), id_(mask), code_(method), subpixels'
+    reg.add(Contract(
+        target=AP, props=['C02'], tag='array-form',
+        params={'data': ('arr', 2, 'real'), 'apertures': 'ApertureToken',
+                'error': ('opt', ('arr', 2, 'real')), 'mask': ('opt', ('arr', 2, 'bool')),
+                'method': 'str', 'subpixels': 'int', 'wcs': None},
+        defaults={'error': None, 'mask': None, 'method': 'exact', 'subpixels': 5, 'wcs': None},
+        ensures=[('names-the-table', f'result == apphot_({args})')],
+        returns='real', assumed=True,
+        note='apphot_ names the table aperture_photometry returns for bare arrays (what it '
+             'contains is the business of the do_photometry contracts and the bounded driver)',
+    ))
+    reg.record('StdDevUncertainty', {'array': ('arr', 2, 'real'), 'unit': ('const', None)})
+    for tag, uspec in (('with-uncertainty', 'StdDevUncertainty'), ('no-uncertainty', ('const', None))):
+        reg.record('NDData@' + tag, {'data': ('arr', 2, 'real'), 'mask': ('arr', 2, 'bool'),
+                                     'wcs': ('const', None), 'unit': ('const', None),
+                                     'uncertainty': uspec}, bases=('NDData',))
+        err = 'id_(data.uncertainty.array)' if uspec == 'StdDevUncertainty' else '0'
+        for meth in ('exact', 'subpixel'):
+            reg.add(Contract(
+                target=AP, props=['C02'], tag=f'nddata-form-{tag}-{meth}',
+                params={'data': 'NDData@' + tag, 'apertures': 'ApertureToken',
+                        'error': ('const', None), 'mask': ('const', None),
+                        'method': ('const', meth), 'subpixels': 'pos', 'wcs': ('const', None)},
+                ensures=[('same-as-the-bare-array-form-on-the-containers-arrays',
+                          f'result == apphot_(id_(data.data), apertures.idx, {err}, id_(data.mask), '
+                          f'code_("{meth}"), subpixels)')],
+                mutants=[('method=method, subpixels=subpixels,', 'method=method,'),
+                         ('error=error, mask=mask,', 'error=error,'),
+                         ('mask = data.mask', 'mask = None')]
+                + ([('error = data.uncertainty.array', 'error = None')]
+                   if uspec == 'StdDevUncertainty' else []),
+            ))
